@@ -15,9 +15,9 @@ def plan(tier, seed):
             else:
                 for bodies in ("0,1", "2,3", "4,7", "5,6"):
                     conds.append(Cond("rename-%d-%d-b%s" % (old, new, bodies.replace(",", "")), F, "rename",
-                                      env={"C14_OLD": old, "C14_NEW": new, "C14_BODIES": bodies}, timeout=3000))
+                                      env={"C14_OLD": old, "C14_NEW": new, "C14_BODIES": bodies}, timeout=1800))
                 conds.append(Cond("rename-twice-%d-%d" % (old, new), F, "rename",
-                                  env={"C14_OLD": old, "C14_NEW": new, "C14_BODIES": "0", "C14_TWICE": 1, "C14_NF": 3}, timeout=3000))
+                                  env={"C14_OLD": old, "C14_NEW": new, "C14_BODIES": "0", "C14_TWICE": 1, "C14_NF": 3}, timeout=1800))
     conds.append(Cond("rename-vacuity", F, "rename", env={"C14_OLD": 0, "C14_NEW": 1, "C14_BODIES": "0"}, timeout=90, vacuity=True))
     meta = dict(functions=["sievelib.managesieve.Client.renamescript (emulated branch)", "listscripts", "getscript", "putscript",
                            "setactive", "deletescript", "__send_command", "__read_response", "__read_line", "__read_block"],
